@@ -197,15 +197,20 @@ func (k Keeper) ExecuteStopLossOrder(ctx sdk.Context, order types.SpotOrder) (*a
 		return nil, nil
 	}
 
+	// release the escrow and swap atomically: ExecuteOrders only logs the error, so a failed swap must leave
+	// the order amount in the order's escrow (otherwise the order stays pending with an empty escrow and can
+	// neither be executed nor cancelled any more)
+	cachedCtx, write := ctx.CacheContext()
+
 	// send the order amount back to the owner
 	ownerAddress := sdk.MustAccAddressFromBech32(order.OwnerAddress)
-	err = k.bank.SendCoins(ctx, order.GetOrderAddress(), ownerAddress, sdk.NewCoins(order.OrderAmount))
+	err = k.bank.SendCoins(cachedCtx, order.GetOrderAddress(), ownerAddress, sdk.NewCoins(order.OrderAmount))
 	if err != nil {
 		return nil, err
 	}
 
 	// Swap the order amount with the target denom
-	res, err := k.amm.SwapByDenom(ctx, &ammtypes.MsgSwapByDenom{
+	res, err := k.amm.SwapByDenom(cachedCtx, &ammtypes.MsgSwapByDenom{
 		Sender:    order.OwnerAddress,
 		Recipient: order.OwnerAddress,
 		Amount:    order.OrderAmount,
@@ -216,6 +221,7 @@ func (k Keeper) ExecuteStopLossOrder(ctx sdk.Context, order types.SpotOrder) (*a
 	if err != nil {
 		return res, err
 	}
+	write()
 
 	// Remove the order from the pending order list
 	k.RemovePendingSpotOrder(ctx, order.OrderId)
@@ -238,15 +244,20 @@ func (k Keeper) ExecuteLimitSellOrder(ctx sdk.Context, order types.SpotOrder) (*
 		return nil, nil
 	}
 
+	// release the escrow and swap atomically: ExecuteOrders only logs the error, so a failed swap must leave
+	// the order amount in the order's escrow (otherwise the order stays pending with an empty escrow and can
+	// neither be executed nor cancelled any more)
+	cachedCtx, write := ctx.CacheContext()
+
 	// send the order amount back to the owner
 	ownerAddress := sdk.MustAccAddressFromBech32(order.OwnerAddress)
-	err = k.bank.SendCoins(ctx, order.GetOrderAddress(), ownerAddress, sdk.NewCoins(order.OrderAmount))
+	err = k.bank.SendCoins(cachedCtx, order.GetOrderAddress(), ownerAddress, sdk.NewCoins(order.OrderAmount))
 	if err != nil {
 		return nil, err
 	}
 
 	// Swap the order amount with the target denom
-	res, err := k.amm.SwapByDenom(ctx, &ammtypes.MsgSwapByDenom{
+	res, err := k.amm.SwapByDenom(cachedCtx, &ammtypes.MsgSwapByDenom{
 		Sender:    order.OwnerAddress,
 		Recipient: order.OwnerAddress,
 		Amount:    order.OrderAmount,
@@ -257,6 +268,7 @@ func (k Keeper) ExecuteLimitSellOrder(ctx sdk.Context, order types.SpotOrder) (*
 	if err != nil {
 		return res, err
 	}
+	write()
 
 	// Remove the order from the pending order list
 	k.RemovePendingSpotOrder(ctx, order.OrderId)
@@ -279,15 +291,20 @@ func (k Keeper) ExecuteLimitBuyOrder(ctx sdk.Context, order types.SpotOrder) (*a
 		return nil, nil
 	}
 
+	// release the escrow and swap atomically: ExecuteOrders only logs the error, so a failed swap must leave
+	// the order amount in the order's escrow (otherwise the order stays pending with an empty escrow and can
+	// neither be executed nor cancelled any more)
+	cachedCtx, write := ctx.CacheContext()
+
 	// send the order amount back to the owner
 	ownerAddress := sdk.MustAccAddressFromBech32(order.OwnerAddress)
-	err = k.bank.SendCoins(ctx, order.GetOrderAddress(), ownerAddress, sdk.NewCoins(order.OrderAmount))
+	err = k.bank.SendCoins(cachedCtx, order.GetOrderAddress(), ownerAddress, sdk.NewCoins(order.OrderAmount))
 	if err != nil {
 		return nil, err
 	}
 
 	// Swap the order amount with the target denom
-	res, err := k.amm.SwapByDenom(ctx, &ammtypes.MsgSwapByDenom{
+	res, err := k.amm.SwapByDenom(cachedCtx, &ammtypes.MsgSwapByDenom{
 		Sender:    order.OwnerAddress,
 		Recipient: order.OwnerAddress,
 		Amount:    order.OrderAmount,
@@ -298,6 +315,7 @@ func (k Keeper) ExecuteLimitBuyOrder(ctx sdk.Context, order types.SpotOrder) (*a
 	if err != nil {
 		return res, err
 	}
+	write()
 
 	// Remove the order from the pending order list
 	k.RemovePendingSpotOrder(ctx, order.OrderId)
